@@ -66,6 +66,10 @@ type world struct {
 	candOwn []*dposkit.Key
 	candNod []*dposkit.Key
 	asgOwn  []*dposkit.Key
+
+	shape    string
+	slotHash []common.Uint168 // owner program hash of every vote slot of the current shape
+	height   uint32
 }
 
 func newWorld() *world {
@@ -113,22 +117,38 @@ func hashOf(k *dposkit.Key) common.Uint168 {
 	return *h
 }
 
-// setup installs the case into the Arbiters and returns the height selecting the era and the
-// set of program hashes that may legitimately receive a payout.
+// shapeKey identifies everything of a case except votes and reward.
+func shapeKey(c *caseT) string {
+	return fmt.Sprintf("%d|%v|%s|%d|%d|%v|%v", c.Era, c.POW, strings.Join(c.CRC, ","), c.DPoS, c.Cand, c.Shared, c.Mapped)
+}
+
+// setup installs the case into the Arbiters (members are rebuilt only when the shape changes:
+// the constructors decompress public keys) and returns the height selecting the era.
 func (w *world) setup(c *caseT) uint32 {
+	if k := shapeKey(c); k != w.shape {
+		w.setupShape(c)
+		w.shape = k
+	}
+	if len(w.slotHash) != len(c.Votes) {
+		evid.Fatalf("case %s: %d vote slots, %d votes", c, len(w.slotHash), len(c.Votes))
+	}
+	votes := make(map[common.Uint168]common.Fixed64, len(c.Votes))
+	total := common.Fixed64(0)
+	for i, h := range w.slotHash {
+		votes[h] = common.Fixed64(c.Votes[i])
+		total += common.Fixed64(c.Votes[i])
+	}
+	w.a.CurrentReward = state.RewardData{OwnerVotesInRound: votes, TotalVotesInRound: total}
+	return w.height
+}
+
+func (w *world) setupShape(c *caseT) {
 	a := w.a
 	var cur, cand []state.ArbiterMember
 	crcMap := map[common.Uint168]state.ArbiterMember{}
-	votes := map[common.Uint168]common.Fixed64{}
-	total := common.Fixed64(0)
 	nodeOwner := map[string]string{}
-	slot := 0
-	take := func(h common.Uint168) {
-		v := common.Fixed64(c.Votes[slot])
-		slot++
-		votes[h] = v
-		total += v
-	}
+	w.slotHash = nil
+	take := func(h common.Uint168) { w.slotHash = append(w.slotHash, h) }
 	var nokey []int
 	for i, kind := range c.CRC {
 		m := &crstate.CRMember{MemberState: crstate.MemberElected}
@@ -183,13 +203,9 @@ func (w *world) setup(c *caseT) uint32 {
 			take(hashOf(w.asgOwn[i]))
 		}
 	}
-	if slot != len(c.Votes) {
-		evid.Fatalf("case %s: %d vote slots, %d votes", c, slot, len(c.Votes))
-	}
 	a.CurrentArbitrators = cur
 	a.CurrentCandidates = cand
 	a.CurrentCRCArbitersMap = crcMap
-	a.CurrentReward = state.RewardData{OwnerVotesInRound: votes, TotalVotesInRound: total}
 	a.State.CurrentCRNodeOwnerKeys = nodeOwner
 	a.State.ConsensusAlgorithm = state.DPOS
 	if c.POW {
@@ -198,26 +214,29 @@ func (w *world) setup(c *caseT) uint32 {
 	n := uint32(len(cur))
 	switch c.Era {
 	case 0:
-		return hV1 / 2
+		w.height = hV1 / 2
 	case 1:
-		return hV1 + 2*n
+		w.height = hV1 + 2*n
 	case 2:
-		return hV2 + 2*n
+		w.height = hV2 + 2*n
 	default:
-		return hV3 + 2*n
+		w.height = hV3 + 2*n
 	}
 }
 
 type counters struct {
-	evals, ok, errs, destroyAll, multi, topUp, zeroTotal int64
+	evals, ok, errs, destroyAll, multi, topUp, zeroTotal, beyond, beyondBad int64
 }
-
-var maxFixed = new(big.Int).SetInt64(int64(^uint64(0) >> 1))
 
 // eval runs one case against the real code and applies the oracle.
 func (w *world) eval(sk *dposkit.Sink, c *caseT, ct *counters, verbose bool) {
 	height := w.setup(c)
-	atomic.AddInt64(&ct.evals, 1)
+	informational := c.Reward > supplyBound
+	if informational {
+		atomic.AddInt64(&ct.beyond, 1)
+	} else {
+		atomic.AddInt64(&ct.evals, 1)
+	}
 	total := w.a.CurrentReward.TotalVotesInRound
 	class := "positive-total-votes"
 	if total == 0 {
@@ -245,8 +264,12 @@ func (w *world) eval(sk *dposkit.Sink, c *caseT, ct *counters, verbose bool) {
 	sum := new(big.Int)
 	neg, positive := 0, 0
 	var worst int64
-	for _, v := range round {
+	recipients := new(big.Int) // payouts to anything but the destroy address
+	for k, v := range round {
 		sum.Add(sum, big.NewInt(int64(v)))
+		if !k.IsEqual(*w.params.DestroyELAProgramHash) {
+			recipients.Add(recipients, big.NewInt(int64(v)))
+		}
 		if v < 0 {
 			neg++
 			if int64(v) < worst {
@@ -258,17 +281,29 @@ func (w *world) eval(sk *dposkit.Sink, c *caseT, ct *counters, verbose bool) {
 		}
 	}
 	reward := big.NewInt(c.Reward)
-	if neg > 0 {
+	if informational {
+		// inputs beyond the coin supply: float64 rounding is expected to bite; counted, never a verdict
+		if neg > 0 || change < 0 || int64(change) > c.Reward || sum.Cmp(reward) > 0 {
+			atomic.AddInt64(&ct.beyondBad, 1)
+		}
+		return
+	}
+	if neg > 0 && !sk.Seen("C27|negative-payout|"+class) {
 		sk.Violate("C27|negative-payout|"+class, fmt.Sprintf("%d negative payout(s), lowest %d, returned without error (%s)", neg, worst, c), c)
 	}
-	if change < 0 {
+	if change < 0 && !sk.Seen("C27|negative-change|"+class) {
 		sk.Violate("C27|negative-change|"+class, fmt.Sprintf("change %d < 0 returned without error (%s)", int64(change), c), c)
 	}
-	if int64(change) > c.Reward {
+	if int64(change) > c.Reward && !sk.Seen("C27|paid-amount-negative|"+class) {
 		sk.Violate("C27|paid-amount-negative|"+class, fmt.Sprintf("change %d exceeds the reward %d, i.e. the amount attributed as paid is negative (%s)", int64(change), c.Reward, c), c)
 	}
-	if sum.Cmp(reward) > 0 {
+	if sum.Cmp(reward) > 0 && !sk.Seen("C27|payouts-exceed-reward|"+class) {
 		sk.Violate("C27|payouts-exceed-reward|"+class, fmt.Sprintf("payouts sum to %s > reward %d (%s)", sum, c.Reward, c), c)
+	}
+	// what reaches real recipients plus the remainder carried forward must fit into the pool
+	// (destroy-address entries are left out: V2/V3 add burn top-ups for unfilled seats on purpose)
+	if neg == 0 && change >= 0 && new(big.Int).Add(recipients, big.NewInt(int64(change))).Cmp(reward) > 0 && !sk.Seen("C27|recipients-plus-change-exceed-reward|"+class) {
+		sk.Violate("C27|recipients-plus-change-exceed-reward|"+class, fmt.Sprintf("payouts to non-destroy addresses %s + change %d > reward %d: paid amount understated (%s)", recipients, int64(change), c.Reward, c), c)
 	}
 	// informational (not a verdict): coinbase spends payouts + change
 	if neg == 0 && change >= 0 && new(big.Int).Add(sum, big.NewInt(int64(change))).Cmp(reward) > 0 {
@@ -282,8 +317,34 @@ func (w *world) eval(sk *dposkit.Sink, c *caseT, ct *counters, verbose bool) {
 	}
 }
 
-var voteAlphabet = []int64{0, 1, 3, 100000000, 1<<53 + 1}
-var rewardAlphabet = []int64{0, 1, 2, 3, 7, 100000001, 1<<53 + 1, 1 << 62}
+// supplyBound: amounts above the coin supply (about 2.8e15 sela < 2^52) cannot occur as votes of
+// a producer or as an accumulated reward; 2^51+1 is the "huge" value of the verdict alphabets.
+const supplyBound = int64(1) << 52
+
+var voteAlphabet = []int64{0, 1, 3, 100000000, 1<<51 + 1}
+
+// voteAlphabetSmall is used in quick tier for shapes in which the code under test derives a
+// program hash per elected CRC arbiter (0.4 ms each: public key decompression).
+var voteAlphabetSmall = []int64{0, 1, 1<<51 + 1}
+var voteAlphabetMid = []int64{0, 1, 100000000, 1<<51 + 1} // same shapes, thorough tier
+var rewardAlphabet = []int64{0, 1, 2, 3, 7, 100000001, 1<<51 + 1}
+
+// rewardBeyond (thorough tier, informational only): rewards beyond the supply, where float64
+// arithmetic is no longer exact.
+var rewardBeyond = []int64{1<<53 + 1, 1 << 62}
+
+// expensive reports whether the shape makes the code decompress public keys.
+func expensive(c *caseT) bool {
+	if c.Era == 0 {
+		return false
+	}
+	for _, k := range c.CRC {
+		if k == "key" || (k == "nokey" && c.Era != 2) {
+			return true
+		}
+	}
+	return false
+}
 
 // shapes enumerates every (era, pow, crc kinds, dpos, cand, shared, mapped) combination.
 func shapes() []caseT {
@@ -348,39 +409,71 @@ func main() {
 	}
 
 	sh := shapes()
-	sinks := make([]dposkit.Sink, len(sh))
+	quick := r.Quick()
+	rewards := rewardAlphabet
+	if !quick {
+		rewards = append(append([]int64{}, rewardAlphabet...), rewardBeyond...)
+	}
+	var sinks []dposkit.Sink
 	var ct counters
 	nw := par.Workers()
 	worlds := make(chan *world, nw)
 	for i := 0; i < nw; i++ {
 		worlds <- newWorld()
 	}
-	par.Go(len(sh), func(i int) {
+	// jobs: one per (shape, value of the first vote slot) so that the large vote spaces are
+	// spread over the workers; sinks are per job and merged in job order.
+	type job struct{ shape, first int }
+	var jobs []job
+	alpha := func(base *caseT) []int64 {
+		if expensive(base) {
+			if quick {
+				return voteAlphabetSmall
+			}
+			return voteAlphabetMid
+		}
+		return voteAlphabet
+	}
+	for i := range sh {
+		if slots(&sh[i]) == 0 {
+			jobs = append(jobs, job{i, -1})
+			continue
+		}
+		for f := range alpha(&sh[i]) {
+			jobs = append(jobs, job{i, f})
+		}
+	}
+	sinks = make([]dposkit.Sink, len(jobs))
+	par.Go(len(jobs), func(j int) {
 		w := <-worlds
 		defer func() { worlds <- w }()
-		base := sh[i]
+		base := sh[jobs[j].shape]
 		n := slots(&base)
+		va := alpha(&base)
 		idx := make([]int, n)
+		if n > 0 {
+			idx[0] = jobs[j].first
+		}
 		for {
 			c := base
 			c.Votes = make([]int64, n)
 			for k := range idx {
-				c.Votes[k] = voteAlphabet[idx[k]]
+				c.Votes[k] = va[idx[k]]
 			}
-			for _, rew := range rewardAlphabet {
+			for _, rew := range rewards {
 				cc := c
 				cc.Reward = rew
-				w.eval(&sinks[i], &cc, &ct, false)
+				w.eval(&sinks[j], &cc, &ct, false)
 			}
-			k := 0
+			k := 1 // slot 0 is fixed by the job
 			for ; k < n; k++ {
 				idx[k]++
-				if idx[k] < len(voteAlphabet) {
+				if idx[k] < len(va) {
 					break
 				}
 				idx[k] = 0
 			}
-			if k == n {
+			if k >= n {
 				break
 			}
 		}
@@ -391,21 +484,22 @@ func main() {
 	samples := []interface{}{}
 	for _, c := range []caseT{
 		{Era: 0, CRC: []string{"key"}, DPoS: 2, Cand: 1, Votes: []int64{3, 1, 100000000}, Reward: 100000001},
-		{Era: 2, CRC: []string{"key", "out"}, DPoS: 3, Cand: 2, Shared: true, Votes: []int64{1, 3, 0, 1<<53 + 1}, Reward: 1 << 62},
+		{Era: 2, CRC: []string{"key", "out"}, DPoS: 3, Cand: 2, Shared: true, Votes: []int64{1, 3, 0, 1<<51 + 1}, Reward: 1<<51 + 1},
 		{Era: 3, CRC: []string{"nokey"}, DPoS: 1, Cand: 0, Mapped: true, Votes: []int64{3, 1}, Reward: 7},
 	} {
 		samples = append(samples, c)
 	}
 	r.Assume = append(r.Assume,
 		"vote data are consistent, as snapshotVotesStates produces them: TotalVotesInRound = sum of the votes of the participating owner hashes (a total of zero therefore means every participant has zero votes)",
-		"votes <= 2^53+1 per producer (sums cannot wrap Fixed64); rewards up to 2^62",
+		"votes per producer and rewards are bounded by the coin supply (largest value 2^51+1 sela); rewards 2^53+1 and 2^62 are evaluated in thorough tier as information only (float64 rounding then lets payouts exceed the reward by a few dozen sela)",
+		"shapes in which the code derives a program hash per elected CRC arbiter (0.4 ms each) use the vote alphabet {0,1,2^51+1} in quick tier and {0,1,10^8,2^51+1} in thorough tier; all other shapes use the full alphabet",
 		"the consensus-algorithm flag is varied only in the V3 era (the only rule that reads it)",
 		"float64 -> int64 conversion of NaN/Inf is the platform's (amd64: MinInt64)",
 		"payouts + change <= reward (what the coinbase spends in total) is counted but NOT part of the verdict: V2/V3 add destroy-address top-ups for unfilled arbiter seats that are not included in the amount attributed as paid")
 	finish(evid.Coverage{
 		"evaluations":         ct.evals,
 		"distinct_nontrivial": ct.multi,
-		"rule": fmt.Sprintf("every shape {era V0..V3 (by height) x [POW flag in V3] x current CRC arbiters: all sequences of length 0..2 over {elected+DPoS key, elected without DPoS key, impeached} x DPoS arbiters 0..3 x candidates 0..2 x [candidate 0 shares the owner key of DPoS arbiter 0] x [key-less CRC arbiters mapped to a producer with its own votes]} (%d shapes; configured seats: %d CRC + %d normal) x every vote vector over %v (one entry per distinct participant) x every reward in %v. non-trivial = successful distributions with at least two positive payouts (cases are distinct by construction)", len(sh), cfgCRC, cfgNormal, voteAlphabet, rewardAlphabet),
+		"rule":                fmt.Sprintf("every shape {era V0..V3 (by height) x [POW flag in V3] x current CRC arbiters: all sequences of length 0..2 over {elected+DPoS key, elected without DPoS key, impeached} x DPoS arbiters 0..3 x candidates 0..2 x [candidate 0 shares the owner key of DPoS arbiter 0] x [key-less CRC arbiters mapped to a producer with its own votes]} (%d shapes; configured seats: %d CRC + %d normal) x every vote vector over %v (%v quick / %v thorough for shapes with elected CRC arbiters; one entry per distinct participant) x every reward in %v. non-trivial = successful distributions with at least two positive payouts (cases are distinct by construction)", len(sh), cfgCRC, cfgNormal, voteAlphabet, voteAlphabetSmall, voteAlphabetMid, rewardAlphabet),
 		"exhaustive":          true,
 		"shapes":              len(sh),
 		"succeeded":           ct.ok,
@@ -414,6 +508,8 @@ func main() {
 		"whole_reward_to_one": ct.destroyAll,
 		"two_or_more_payouts": ct.multi,
 		"informational_payouts_plus_change_exceed_reward": ct.topUp,
+		"informational_beyond_supply_evaluations":         ct.beyond,
+		"informational_beyond_supply_oracle_failures":     ct.beyondBad,
 		"samples": samples,
 	})
 }
